@@ -270,7 +270,7 @@ func init() {
 	core.Register(&core.Prop{
 		ID: "C18", Level: "exploration",
 		Rule: "each case is a history of <=12 steps (thorough <=40) in a FRESH process (package-level state starts from the library defaults): construct a writer or reader with a subset of its options (the first 64+16 cases force every subset; nil arguments included), " +
-			"or make a per-call WriteStreamWithOptions / ParseStreamWithOptions. After EVERY step the monitor compares every live instance with its own model (documented defaults: no format, indent 4, NoClobber false, no format options) - Options fields, " +
+			"make a per-call WriteStreamWithOptions / ParseStreamWithOptions (also with per-call driver, store and retrieve options), or configure a live instance through its exported Options (format, indentation, driver options, store/retrieve options). After EVERY step the monitor compares every live instance with its own model (documented defaults: no format, indent 4, NoClobber false, no format options) - Options fields, " +
 			"the format and indentation WriteStream actually produces, the options a recording storage backend receives from Store/Retrieve - and a constructor without options is checked against the documented defaults. Per-call options must be used for that call and be gone for the next default call. " +
 			"distinct = hash of the history; non-trivial = >=2 live instances with different configurations.",
 		Assumptions: []string{"what an absent field of a per-call Options falls back to is not specified by the property and not judged", "CycloneDX rendering ignores the indentation option, so indentation is observed on SPDX output only"},
@@ -323,15 +323,18 @@ func c18Case(c *core.C) {
 		return c18CheckReader(c, dr, trace, spdxSample)
 	}
 	for s := 0; s < steps; s++ {
-		kind := r.Intn(6)
+		kind := r.Intn(8)
 		if s == 0 {
 			kind = c.K % 2 // forced subsets start with a constructor
 		}
 		if (kind == 2 || kind == 3) && len(ws) == 0 {
 			kind = 0
 		}
-		if kind >= 4 && len(rs) == 0 {
+		if (kind == 4 || kind == 5 || kind == 7) && len(rs) == 0 {
 			kind = 1
+		}
+		if kind == 6 && len(ws) == 0 {
+			kind = 0
 		}
 		switch {
 		case kind == 0:
@@ -352,6 +355,50 @@ func c18Case(c *core.C) {
 			rs = append(rs, m)
 			trace = append(trace, fmt.Sprintf("%s=reader.New(%s)", m.name, strings.Join(m.optsDesc, ",")))
 			c.Cover(fmt.Sprintf("reader-option-subset:%d", rm))
+		case kind == 6:
+			// configure a live writer through its exported Options: only this instance changes
+			m := ws[r.Intn(len(ws))]
+			switch r.Intn(4) {
+			case 0:
+				m.format = gen.Pick(r, c18Formats)
+				m.w.Options.Format = m.format
+				trace = append(trace, fmt.Sprintf("%s.Options.Format=%s", m.name, m.format))
+			case 1:
+				k, v := gen.Pick(r, c18Keys), fmt.Sprintf("%s-direct-%d", m.name, s)
+				m.fmtOpts[k] = v
+				m.w.Options.SetFormatOptions(k, v)
+				trace = append(trace, fmt.Sprintf("%s.Options.SetFormatOptions(%s)", m.name, k))
+			case 2:
+				m.indent = gen.Pick(r, []int{0, 1, 2, 3, 6, 9})
+				m.w.Options.RenderOptions.Indent = m.indent
+				trace = append(trace, fmt.Sprintf("%s.Options.RenderOptions.Indent=%d", m.name, m.indent))
+			default:
+				m.w.Options.StoreOptions.NoClobber = true
+				if m.store == nil {
+					m.store = m.w.Options.StoreOptions
+				}
+				trace = append(trace, fmt.Sprintf("%s.Options.StoreOptions.NoClobber=true", m.name))
+			}
+			c.Cover("direct-configuration-of-a-live-writer")
+		case kind == 7:
+			// configure a live reader through its exported Options
+			m := rs[r.Intn(len(rs))]
+			switch r.Intn(3) {
+			case 0:
+				k, v := gen.Pick(r, c18Keys), fmt.Sprintf("%s-direct-%d", m.name, s)
+				m.fmtOpts[k] = v
+				m.r.Options.SetFormatOptions(k, v)
+				trace = append(trace, fmt.Sprintf("%s.Options.SetFormatOptions(%s)", m.name, k))
+			case 1:
+				m.retr = &storage.RetrieveOptions{BackendOptions: m.name + "-direct"}
+				m.r.Options.RetrieveOptions = m.retr
+				trace = append(trace, fmt.Sprintf("%s.Options.RetrieveOptions=own", m.name))
+			default:
+				m.unser = &native.UnserializeOptions{}
+				m.r.Options.UnserializeOptions = m.unser
+				trace = append(trace, fmt.Sprintf("%s.Options.UnserializeOptions=own", m.name))
+			}
+			c.Cover("direct-configuration-of-a-live-reader")
 		case kind <= 3:
 			// per-call options on a writer: used for this call only
 			m := ws[r.Intn(len(ws))]
